@@ -718,3 +718,51 @@ c.skip_cross = True
 c.returns(T.Int())
 c.may_raise(pdm.PDFNoValidXRef, lambda parser: _TailLines.CASES[parser._case][1] == "no-valid-xref")
 c.ens("offset-after-the-last-startxref", lambda parser, result: _TailLines.CASES[parser._case][1] != "no-valid-xref" and result == _TailLines.CASES[parser._case][1])
+
+
+# -- PDFXRef.load (classic table): subsections `first count`, 20-byte entries `offset generation n|f`; in-use entries recorded under consecutive numbers,
+#    free ones skipped; the reader stops in front of `trailer`; anything else is "no valid xref" ----------------------------------------------------------------
+class _XRefLines(T.Sort):
+    L = lambda *xs: [(100 + 20 * i, x) for i, x in enumerate(xs)]
+    CASES = {
+        "one-subsection": (L(b"0 3\n", b"0000000000 65535 f \n", b"0000000017 00000 n \n", b"0000000081 00002 n \n", b"trailer\n"), {1: (None, 17, 0), 2: (None, 81, 2)}),
+        "two-subsections": (L(b"0 1\n", b"0000000000 65535 f \n", b"5 2\n", b"0000000200 00000 n \n", b"0000000300 00001 n \n", b"trailer\n"), {5: (None, 200, 0), 6: (None, 300, 1)}),
+        "crlf-and-blank-lines": (L(b"\r\n", b"3 1\r\n", b"0000000044 00000 n\r\n", b"  \n", b"trailer\r\n"), {3: (None, 44, 0)}),
+        "trailer-dictionary-on-the-same-line": (L(b"7 1\n", b"0000000009 00000 n \n", b"trailer << /Size 8 >>\n"), {7: (None, 9, 0)}),
+        "empty-subsection": (L(b"0 0\n", b"trailer\n"), {}),
+        "later-subsection-overrides-number": (L(b"1 1\n", b"0000000010 00000 n \n", b"1 1\n", b"0000000020 00000 n \n", b"trailer\n"), {1: (None, 20, 0)}),
+        "unparsable-offset-is-skipped": (L(b"1 2\n", b"00000000xx 00000 n \n", b"0000000030 00000 n \n", b"trailer\n"), {2: (None, 30, 0)}),
+        "header-with-three-fields": (L(b"0 1 2\n", b"trailer\n"), "no-valid-xref"),
+        "header-not-numbers": (L(b"a b\n", b"trailer\n"), "no-valid-xref"),
+        "entry-with-two-fields": (L(b"0 1\n", b"0000000000 65535\n", b"trailer\n"), "no-valid-xref"),
+        "eof-before-trailer": (L(b"0 1\n", b"0000000000 65535 f \n"), "no-valid-xref"),
+        "eof-inside-subsection": (L(b"0 2\n", b"0000000000 65535 f \n"), "no-valid-xref"),
+    }
+    def fresh(self, ctx, name):
+        k = ctx.choose(sorted(self.CASES), "table")
+        lines = list(self.CASES[k][0])
+        seeks = []
+
+        def nextline(I):
+            from pyvc.symexec import SymRaise
+            if not lines:
+                raise SymRaise(real_module("pdfminer.psparser").PSEOF, "Unexpected EOF")
+            return lines.pop(0)
+        return SObj(None, {"nextline": SymFn(nextline, "nextline"), "seek": SymFn(lambda I, p: seeks.append(p), "seek"), "_case": k, "_seeks": seeks, "_lines": lines}, name)
+    def sample(self, rng):
+        return None
+    def from_model(self, ev, v):
+        return v.f["_case"]
+
+
+_lt = stub("pdfminer.pdfdocument:PDFXRef.load_trailer", ["self", "parser"])
+c = contract("pdfminer.pdfdocument:PDFXRef.load", props=["C02", "C13"])
+c.param("self", T.Obj("pdfminer.pdfdocument:PDFXRef", trailer=T.Const({}))).param("parser", _XRefLines())
+c.skip_cross = True
+c.wire = lambda bound, ghosts: bound["self"].f.__setitem__("offsets", {})
+c.stubs = {"pdfminer.pdfdocument:PDFXRef.load_trailer": _lt}
+c.mod("self.offsets").mod("parser._seeks").mod("parser._lines")
+c.may_raise(pdm.PDFNoValidXRef, lambda parser: _XRefLines.CASES[parser._case][1] == "no-valid-xref")
+c.ens("in-use-entries-under-consecutive-numbers-reader-left-in-front-of-trailer-then-the-trailer-is-read", lambda self, parser, trace: (
+    dict(self.offsets) == _XRefLines.CASES[parser._case][1] and len(trace) == 1 and trace[0][0].endswith("load_trailer")
+    and parser._seeks == [_XRefLines.CASES[parser._case][0][-1][0]] and parser._lines == []))
